@@ -570,3 +570,26 @@ func bigOf(v string) *big.Int {
 	}
 	return b
 }
+
+// RecreateDeletedSub: one owner's name with one sub-domain; whenever both exist, one block deletes the
+// sub-domain and, after that, tries to create it again three times with gas limits around what the handler
+// consumes (a create that runs out of gas in its fee step has already written the record it must not leave).
+func RecreateDeletedSub(c *Ctx, who *world.Account, tag string) []hist.TxSpec {
+	base := "csix" + tag + ".ol"
+	sub := "s." + base
+	if FindDomain(c.S, base) == nil {
+		return []hist.TxSpec{onsCreate(c, who, nil, base, priceFor(c, 100000), "", "create a name (for the delete / re-create block)")}
+	}
+	if FindDomain(c.S, sub) == nil {
+		return []hist.TxSpec{onsCreate(c, who, nil, sub, priceFor(c, 1), "", "create its sub-domain")}
+	}
+	out := []hist.TxSpec{onsDeleteSub(c, who, sub, "delete the sub-domain")}
+	for _, g := range []int64{13000, 16500, 21000} {
+		msg := &onsact.DomainCreate{Owner: who.Addr, Name: ons.Name(sub), BuyingPrice: txb.Amt("OLT", priceFor(c, 1))}
+		sp := BuildFee(c, "DOMAIN_CREATE", msg, txb.Fee("1000000000", g), fmt.Sprintf("create the sub-domain deleted earlier in this block, gas limit %d", g), who)
+		sp.Meta = map[string]string{"name": sub, "price": priceFor(c, 1), "owner": who.Addr.String(), "beneficiary": who.Addr.String(), "uri": ""}
+		sp.Trait = fmt.Sprintf("gas=%d", g)
+		out = append(out, sp)
+	}
+	return out
+}
